@@ -38,6 +38,17 @@ pub fn root_seed() -> u64 {
 /// A worker or exec child that outlives its parent (parent killed while the child spins in an
 /// endless loop of the code under test) would burn a CPU for ever: exit when the parent is gone.
 pub fn die_with_parent() {
+    // ... and a child in which the code under test allocates without end (a walk that no longer stops: gigabytes
+    // within seconds, on a machine without swap) must die of it alone, as an abort that the coordinator triages
+    // like any other crash, instead of taking the other workers with it: address space capped per child
+    // (16 GiB unless VERIF_WORKER_MEM_GB says otherwise; the largest ordinary run uses well under 1 GiB).
+    let gb: u64 = std::env::var("VERIF_WORKER_MEM_GB").ok().and_then(|s| s.parse().ok()).unwrap_or(16);
+    if gb > 0 {
+        let lim = libc::rlimit { rlim_cur: gb << 30, rlim_max: gb << 30 };
+        unsafe {
+            libc::setrlimit(libc::RLIMIT_AS, &lim);
+        }
+    }
     let parent = unsafe { libc::getppid() };
     std::thread::spawn(move || loop {
         std::thread::sleep(Duration::from_secs(1));
